@@ -88,8 +88,13 @@ struct BitRunner {
 			case 14: c.op("%s ^= other", w); f ^= of; r ^= orr; break;
 			case 15: c.op("%s = ~%s", w, w); f = ~f; r = ~r; break;
 			case 16: case 17: case 18: case 19: {
-				size_t sh; unsigned how = t.pick(6);
-				if(how == 0) sh = t.pick(8); else if(how == 1) sh = 64 * t.pick(N / 64 + 3) ; else if(how == 2) sh = N - 1 + t.pick(3); else if(how == 3) sh = N + t.pick(131); else sh = t.pick(N + 131);
+				size_t sh; unsigned how = t.pick(7);
+				if(how == 0) sh = t.pick(8); else if(how == 1) sh = 64 * t.pick(N / 64 + 3) ; else if(how == 2) sh = N - 1 + t.pick(3); else if(how == 3) sh = N + t.pick(131);
+				else if(how == 6) {      // "by any amount": amounts whose word count or bit count wraps in a narrower type (2^32, 2^38 = 64 * 2^32, 2^63, SIZE_MAX) and their neighbours
+					static const size_t huge[] = {size_t(1) << 32, (size_t(1) << 32) + 64, size_t(1) << 38, (size_t(1) << 38) + 64, size_t(3) << 38, size_t(1) << 44, size_t(1) << 63, ~size_t(0), ~size_t(0) - 63, (size_t(1) << 31) * 64};
+					sh = huge[t.pick(10)] + (t.flip() ? 0 : t.pick(N + 70)); c.tag("shift-huge");
+				}
+				else sh = t.pick(N + 131);
 				if(sh >= 64) big_shift = true;
 				if(sh >= N) c.tag("shift>=N");
 				if(op == 16) { c.op("%s <<= %zu", w, sh); f <<= sh; r <<= sh; }
